@@ -234,7 +234,7 @@ example : (exPos2.apply (Array.replicate 64 0#64) ⟨0, 0, Facts.mtSlideUp, 0x11
 -- a legal placement written with a junk slide word is `Equal` to a listed one
 example : ∃ m' ∈ exPos.allMoves, m'.equal ⟨2, 2, Facts.mtPlaceStanding, 0xdead#32⟩ = true :=
   allMoves_complete exPos exPos_wf _ (by decide) (by decide)
--- the tall corner stack: carry 5 as 2+1+1+1 to the right edge is legal … and listed
+-- the tall corner stack (7 high, carry limit 5): carrying 5 up the a-file as 2+1+1+1 is legal … and listed
 example : legal exPos2 ⟨0, 0, Facts.mtSlideUp, 0x1112#32⟩ = true := by decide
 example : (⟨0, 0, Facts.mtSlideUp, 0x1112#32⟩ : Tak.Move) ∈ exPos2.allMoves := by decide +kernel
 -- the capstone alone may flatten the wall two squares to the right only at the end: 1 then 1 is legal, 2 is not
